@@ -16,7 +16,11 @@ bad = {}
 nrun = nrej = 0
 for sel in fam.conditions(tier, 0):
     for _ in range(rounds):
-        args = [rnd.choice([True, False]) if t == 'bool' else rnd.randint(-3, 4) for _, t in fam.params]
+        args = [rnd.choice([True, False]) if t == 'bool' else
+                (rnd.randint(0, 2) if nme[0] in 'rc' and nme[1:].isdigit() else
+                 (100 + 7 * int(nme[1:]) + rnd.randint(0, 3) if nme[0] == 'v' and nme[1:].isdigit() else
+                  (rnd.randint(1, 6) if nme in ('thr',) or (nme[0] == 'm' and nme[1:].isdigit()) else rnd.randint(-3, 4))))
+                for nme, t in fam.params]
         try:
             r = fam.body(*sel, *args)
             nrun += 1
